@@ -106,7 +106,20 @@ func genC07Frames(r *PRNG) *Scenario {
 	for _, s := range segs {
 		stream = append(stream, s.Data...)
 	}
-	switch r.Intn(6) {
+	switch r.Intn(8) {
+	case 6, 7: // a header at a frame boundary that claims far more than will ever arrive
+		_, exps := ExpandScript(script, realIsServer, scn.Seed)
+		cutAt := 0
+		if len(exps) > 0 {
+			cutAt = exps[r.Intn(len(exps))].StartOff
+		}
+		claimed := []uint64{1 << 20, 64 << 20, 1 << 30, 1 << 40, 1 << 62, 1<<63 - 1}[r.Intn(6)]
+		var k [4]byte
+		hdr := wsframeRawHeader(byte(0x80|r.Range(1, 2)), realIsServer, k, claimed)
+		tailN := r.Pick([]int{0, 1, 16, 200})
+		tail := make([]byte, tailN)
+		stream = append(append(append([]byte{}, stream[:cutAt]...), hdr...), tail...)
+		end.ReadLimit = 0
 	case 0: // pure noise
 		stream = make([]byte, r.Range(0, 400))
 		r.Fill(stream)
@@ -126,6 +139,9 @@ func genC07Frames(r *PRNG) *Scenario {
 	}
 	l := Link{Script: []SItem{{Kind: "bytes", Data: stream}}, PeerClose: "fin", ScriptChunk: r.Pick([]int{0, 0, 1, 50})}
 	task := TaskCfg{Kind: "reader", R: genReadProg(r, r.PickS([]string{"", "", "join", "json"})), ExtraReads: r.Pick([]int{0, 5, 995})}
+	if r.Chance(1, 3) {
+		task.R = []ROp{{Kind: "rm"}}
+	}
 	if realIsServer {
 		end.Server = r.PickS([]string{"mini", "nethttp"})
 		l.Server = end
@@ -158,6 +174,16 @@ func genC07Reply(r *PRNG) *Scenario {
 		raw = mutate(r, []byte(valid))
 	}
 	d.Backend = Backend{Kind: "byz", Reply: Reply{Raw: raw, CloseAfter: r.Bool()}}
+	if r.Chance(1, 2) {
+		// an otherwise valid 101 (right Accept for this key) whose extension and subprotocol
+		// headers are hostile: the only way to reach the extension parser on the client
+		d.Backend.Reply = Reply{Status: 101, Accept: "good", Upgrade: []string{"websocket"}, Connection: []string{"Upgrade"},
+			Ext: genHeaderValue(r, "permessage-deflate; server_no_context_takeover; client_no_context_takeover"),
+			Extra: [][2]string{{"Sec-WebSocket-Protocol", genHeaderValue(r, "chat")}}, CloseAfter: true}
+		if r.Chance(1, 4) {
+			d.Backend.Reply.Extra = append(d.Backend.Reply.Extra, [2]string{"Sec-WebSocket-Extensions", genHeaderValue(r, "foo; bar=\"baz\"")})
+		}
+	}
 	scn.HS.Dials = []HSDial{d}
 	scn.Net = NetCfg{DefCap: genCap(r)}
 	scn.Sched.IdleHorizon = 100000
@@ -219,7 +245,25 @@ func genHeaderValue(r *PRNG, base string) string {
 // surface 4: handshake request header values from a client
 func genC07Request(r *PRNG) *Scenario {
 	scn := &Scenario{Prop: "C07", Class: "request-headers", Seed: r.Uint64() >> 1, Sched: genSched(r), HS: &HSScn{}}
+	// most requests have one or two hostile headers and are valid otherwise, so that the
+	// checks behind the first one (key, origin, subprotocols, extensions) are reached
+	names := []string{"Connection", "Upgrade", "Sec-WebSocket-Version", "Sec-WebSocket-Key", "Sec-WebSocket-Protocol", "Sec-WebSocket-Extensions", "Origin"}
+	hostile := map[string]bool{}
+	switch r.Intn(4) {
+	case 0:
+		for _, n := range names {
+			hostile[n] = true
+		}
+	default:
+		hostile[names[r.Intn(len(names))]] = true
+		if r.Bool() {
+			hostile[names[4+r.Intn(3)]] = true
+		}
+	}
 	hv := func(name, base string) string {
+		if !hostile[name] {
+			return name + ": " + base + "\r\n"
+		}
 		v := genHeaderValue(r, base)
 		if r.Chance(1, 6) {
 			return name + ": " + v + "\r\n" + name + ": " + genHeaderValue(r, base) + "\r\n"
@@ -234,7 +278,7 @@ func genC07Request(r *PRNG) *Scenario {
 		hv("Sec-WebSocket-Key", "dGhlIHNhbXBsZSBub25jZQ==") + hv("Sec-WebSocket-Protocol", "chat, superchat") +
 		hv("Sec-WebSocket-Extensions", "permessage-deflate; client_max_window_bits; server_max_window_bits=10") + hv("Origin", "http://srv.test") + "\r\n"
 	scn.HS.SrvReq = []byte(req)
-	scn.HS.Srv = &Backend{Kind: "upgrader", Server: r.PickS([]string{"mini", "nethttp"}), Comp: r.Bool()}
+	scn.HS.Srv = &Backend{Kind: "upgrader", Server: r.PickS([]string{"mini", "nethttp"}), Comp: r.Chance(3, 4)}
 	scn.Net = NetCfg{DefCap: 1 << 20}
 	scn.Sched.IdleHorizon = 10000
 	return scn
@@ -318,4 +362,14 @@ func oracleC07(run *Run) {
 		run.fail("C07", "hang", cls+"/step-cap", "the run was still going after %d scheduler steps on %d input bytes: something loops without consuming input", run.Stats.Steps, received)
 	}
 	_ = fmt.Sprint
+}
+
+// wsframeRawHeader builds a data-frame header claiming n payload bytes in the 64-bit form.
+func wsframeRawHeader(b0 byte, masked bool, key [4]byte, n uint64) []byte {
+	h := []byte{b0, 127, byte(n >> 56), byte(n >> 48), byte(n >> 40), byte(n >> 32), byte(n >> 24), byte(n >> 16), byte(n >> 8), byte(n)}
+	if masked {
+		h[1] |= 0x80
+		h = append(h, key[:]...)
+	}
+	return h
 }
